@@ -193,10 +193,33 @@ func runC11(em *vEmitter, r *vRng) {
 				}
 			}(i)
 		}
-		variant := di % 5
+		variant := di % 7
+		if variant >= 5 {
+			// the password change is already QUEUED (behind the backlog) when another client logs in with the
+			// still valid old password: whichever of the two the dispatcher takes first, the upgrade the login
+			// queues must not undo or replace the acknowledged change
+			wg.Add(2)
+			go func() {
+				defer wg.Done()
+				upd(1, "victim", "new")
+			}()
+			go func() {
+				defer wg.Done()
+				if variant == 6 {
+					time.Sleep(time.Duration(200+r.intn(1500)) * time.Microsecond)
+				}
+				rec(c11Op{client: 3, kind: "auth", user: "victim", pw: "old"}, func(o *c11Op) {
+					ok, adm, _, _ := api.Authenticate("victim", "old")
+					o.ok, o.resAdmin = ok, ok && adm
+				})
+			}()
+		}
 		wg.Add(1)
 		go func() {
 			defer wg.Done()
+			if variant >= 5 {
+				return
+			}
 			rec(c11Op{client: 1, kind: "auth", user: "victim", pw: "old"}, func(o *c11Op) {
 				ok, adm, _, _ := api.Authenticate("victim", "old")
 				o.ok, o.resAdmin = ok, ok && adm
